@@ -8,6 +8,9 @@
   the shape of `_validate_props` (whether the full property-name loop exists
   and under which guard; the leading-letter loop under `version != "2.0"`;
   `_validate_ref_props` last);
+* stix2/custom.py: `_get_properties_dict` copies the caller's properties; stix2/v21/sdo.py,
+  v21/observables.py: the `if extension_name:` block of the wrappers registers the
+  NameExtension unconditionally;
 * stix2/registry.py: `class_for_type` -- the category dispatch (`if category:
   ... else: <the four maps in order>`), and whether the search over all
   categories is an `else` (exclusive) or a fall-through (`if not cls:`).
@@ -186,6 +189,49 @@ def class_for_type_shape(tree):
     return m.group(1) == "else", order
 
 
+GPD_COPY = "try:\n    return OrderedDict(properties)\nexcept TypeError as e:\n    raise ValueError"
+GPD_ALIAS = "if isinstance(properties, dict):\n    return properties"
+
+EXTNAME_SDO = ("if extension_name:\n\n    @CustomExtension(type=extension_name, properties={})\n    class NameExtension:\n"
+               "        if is_sdo:\n            extension_type = 'new-sdo'\n        else:\n            extension_type = 'new-sro'\n"
+               "    extension = extension_name.split('--')[1]\n    extension = extension.replace('-', '')\n"
+               "    NameExtension.__name__ = 'ExtensionDefinition' + extension\n    cls.with_extension = extension_name")
+EXTNAME_SCO = ("if extension_name:\n\n    @CustomExtension(type=extension_name, properties={})\n    class NameExtension:\n"
+               "        extension_type = 'new-sco'\n"
+               "    extension = extension_name.split('--')[1]\n    extension = extension.replace('-', '')\n"
+               "    NameExtension.__name__ = 'ExtensionDefinition' + extension\n    cls.with_extension = extension_name")
+
+
+def properties_copied(tree):
+    """custom._get_properties_dict: the decorators work on their own OrderedDict copy of `properties`."""
+    fn = _function(tree, "_get_properties_dict", "stix2/custom.py")
+    st = _stmts(fn)
+    if st == [GPD_COPY]:
+        return True
+    if st == [GPD_ALIAS, GPD_COPY]:
+        return False
+    raise TranslateError("_get_properties_dict: body not of a known form: %s" % " // ".join(x.replace("\n", " / ") for x in st))
+
+
+def extname_block(tree, rel, deco, known):
+    """The `if extension_name:` block of a v21 wrapper: registers the NameExtension unconditionally (True), or only
+    when no extension is registered under that name yet (False)."""
+    fn = _function(tree, deco, rel)
+    ws = [x for x in fn.body if isinstance(x, ast.FunctionDef) and x.name == "wrapper"]
+    if len(ws) != 1:
+        raise TranslateError("%s: %s has no single inner `wrapper`" % (rel, deco))
+    blocks = [ast.unparse(ast.fix_missing_locations(_NormRaise().visit(x))) for x in ws[0].body
+              if isinstance(x, ast.If) and ast.unparse(x.test) == "extension_name"]
+    if len(blocks) != 1:
+        raise TranslateError("%s: %s.wrapper has %d `if extension_name:` blocks" % (rel, deco, len(blocks)))
+    if blocks[0] == known:
+        return True
+    if re.search(r"if not class_for_type\(extension_name, '2\.1', 'extensions'\):", blocks[0]) \
+            and blocks[0].rstrip().endswith("cls.with_extension = extension_name"):
+        return False
+    raise TranslateError("%s: %s.wrapper: extension_name block not of a known form: %s" % (rel, deco, blocks[0].replace("\n", " / ")))
+
+
 def translate(repo, out_path=None):
     def mod(rel):
         with open(os.path.join(repo, rel), encoding="utf-8") as f:
@@ -200,6 +246,9 @@ def translate(repo, out_path=None):
         ext_check = ec or ext_check
     if ext_check is None:
         raise TranslateError("_register_extension: no check of the extension name found")
+    copied = properties_copied(mod("stix2/custom.py"))
+    ext_uncond = extname_block(mod("stix2/v21/sdo.py"), "stix2/v21/sdo.py", "CustomObject", EXTNAME_SDO) \
+        and extname_block(mod("stix2/v21/observables.py"), "stix2/v21/observables.py", "CustomObservable", EXTNAME_SCO)
     vp = validate_props_shape(regn)
     exclusive, order = class_for_type_shape(regy)
     out = ["(* GENERATED by translators/tr_regflow.py from stix2/registration.py and stix2/registry.py -- do not edit *)",
@@ -219,12 +268,19 @@ def translate(repo, out_path=None):
             "(* registry.class_for_type: `if category: <that map> else: <search>` (true) or `if not cls: <search>` (false) *)",
             "Definition src_cft_category_exclusive : bool := %s." % ("true" if exclusive else "false"),
             "Definition src_cft_search_order : list category := [%s]." % "; ".join(CATS[c] for c in order),
+            "",
+            "(* custom._get_properties_dict copies the caller's properties into an OrderedDict of its own *)",
+            "Definition src_properties_copied : bool := %s." % ("true" if copied else "false"),
+            "(* the v21 CustomObject / CustomObservable wrappers register the extension_name= extension unconditionally",
+            "   (so a taken name raises DuplicateRegistrationError) *)",
+            "Definition src_extname_registers_unconditionally : bool := %s." % ("true" if ext_uncond else "false"),
             ""]
     text = "\n".join(out)
     if out_path:
         with open(out_path, "w", encoding="utf-8") as f:
             f.write(text)
-    return text, {"flows": flows, "ext_check": ext_check, "validate_props": vp, "cft_exclusive": exclusive, "cft_order": order}
+    return text, {"flows": flows, "ext_check": ext_check, "validate_props": vp, "cft_exclusive": exclusive, "cft_order": order,
+                  "properties_copied": copied, "extname_unconditional": ext_uncond}
 
 
 if __name__ == "__main__":
